@@ -36,8 +36,12 @@ def check(run, project):
     L = ctx.layout(project)
     run.explanation = ("CFG dominance / def-use in the primitive walker, who-may-convert rule over the decode core, "
                        "structural check of the membership chain, pinned valid-value tables from E1")
+    from .carriers import check_carriers
+    check_carriers(run, project, "V6", {"constraint", "value"})
     guards.check(run, project, L)
     v1_v2(run, roles)
+    from .c02 import primitive_event_once
+    primitive_event_once(run, roles, "V1")
     v3(run, project, roles)
     v4(run, project)
     c20.t6(run, project, L, facets={"valid", "naming"}, rule="V5")
@@ -142,9 +146,10 @@ def v1_v2(run, roles):
                module=mod, node=b, func=fn.name, construct=VERR + ".constraint")
     # the raw integer: result of int.from_bytes (or the typed value built from it)
     v_expr = V.resolve(val, b) if val is not None else None
-    okraw = isinstance(v_expr, ast.Call) and (norm(v_expr.func) == "int.from_bytes" or (
-        norm(v_expr.func) == tparam and v_expr.args and isinstance(V.resolve(v_expr.args[0], b), ast.Call)
-        and norm(V.resolve(v_expr.args[0], b).func) == "int.from_bytes"))
+    from .c02 import reader_triple
+    RT = reader_triple(run, roles, emit=False)
+    okraw = val is not None and (RT["is_decoded"](val, b) or (
+        isinstance(v_expr, ast.Call) and norm(v_expr.func) == tparam and len(v_expr.args) == 1 and RT["is_decoded"](v_expr.args[0], b)))
     run.ob("V2", okraw, "error carries the offending integer", f"value is `{norm(val) if val is not None else None}`",
            module=mod, node=b, func=fn.name, construct=VERR + ".value")
 
@@ -161,7 +166,8 @@ def v3(run, project, roles):
                            f"{q} L{c.lineno}: byte->integer conversion site",
                            f"wire bytes are converted to an integer in {q}, outside the validating primitive walker",
                            module=mod, node=c, func=q, construct=norm(c)[:100])
-    run.require(n >= 1, "C04: no int.from_bytes conversion site found")
+    from .c02 import reader_triple
+    run.require(n >= 1 or reader_triple(run, roles, emit=False).get("manual"), "C04: no byte->integer conversion site found")
     # only the primitive walker receives bytes from the pump: byte requests (`yield None`) elsewhere
     # hand raw bytes to code that does not validate them
     mod = roles.mod
